@@ -182,22 +182,36 @@ def build(tier, seed):
 def eval_case(case, rng):
     quic = rng.random() < 0.35
     style = rng.choice(scene.TS_STYLES + (["coarse"] if not quic else []))
+    # every eleventh case twice: the exported server port equals the client's port (bare -m with a client on port 8080; -m 443:<client port>) - the two ends of the
+    # exported conversation then differ in their addresses only
+    coincide = {4: "bare", 5: "pair"}.get(case["i"] % 11)
+    ep = None
+    if coincide:
+        for _ in range(20):
+            ep = tcpcap.random_ep(rng, odd=0.0)
+            if ep.cip != ep.sip:
+                break
+        if coincide == "bare":
+            ep.cport = 8080
     if quic:
-        fl = gen.random_quic_flow(rng, napp=rng.choice([3, 8, 15]))
+        fl = gen.random_quic_flow(rng, ep=ep, napp=rng.choice([3, 8, 15]))
     else:
-        fl = gen.random_tls_flow(rng, nmax=12, big=rng.random() < 0.3, segkinds=tcpcap.CUT_KINDS, min_records=1, perturb=rng.random() < 0.35, duplex=rng.random() < 0.4)
+        fl = gen.random_tls_flow(rng, ep=ep, nmax=12, big=rng.random() < 0.3, segkinds=tcpcap.CUT_KINDS, min_records=1, perturb=rng.random() < 0.35, duplex=rng.random() < 0.4)
     items = scene.merge([fl], rng, "concat")
     scene.stamp(items, rng, style)
     extra, mapargs = [], None
     if rng.random() < 0.3:
         mapargs = [] if rng.random() < 0.5 else [f"443:{tcpcap.map_target(rng)}"]
         extra = ["-m"] + mapargs
+    if coincide:
+        mapargs = [] if coincide == "bare" else [f"{fl.ep.sport}:{fl.ep.cport}"]
+        extra = ["-m"] + mapargs
     meta = case["i"] % 5 == 3       # a fifth of the cases with -a: handshake material is exported too, and its packets have capture times as well
     if meta:
         extra = extra + ["-a"]
     res, files, argv = e2e.run_capture(scene.capture(items), scene.keylog_text([fl], rng), extra)
-    out = {"cls": [fl.kind, fl.label.split("-")[1], fl.segkind, style, "v6" if fl.ep.v6 else "v4", "map" if mapargs is not None else "", "-a" if meta else ""],
-           "tags": [f"ts:{style}", f"seg:{fl.segkind}", f"proto:{fl.kind}"],
+    out = {"cls": [fl.kind, fl.label.split("-")[1], fl.segkind, style, "v6" if fl.ep.v6 else "v4", ("map-to-client-port" if coincide else "map") if mapargs is not None else "", "-a" if meta else ""],
+           "tags": [f"ts:{style}", f"seg:{fl.segkind}", f"proto:{fl.kind}"] + (["map:target-equals-client-port"] if coincide else []),
            "sample": {"case": case["id"], "flow": fl.label, "endpoints": fl.ep.describe(), "macs": fl.ep.cmac.hex() + "/" + fl.ep.smac.hex(), "segmentation": fl.segkind,
                       "timestamps": [it.ts for it in items][:6], "args": extra}}
     fail = e2e.run_failed(res)
